@@ -424,6 +424,8 @@ class Emitter:
             raise Unsupported('expression kind %s in %s' % (k, self.cur_fn))
         if k in ('CallExpr', 'CXXOperatorCallExpr', 'CXXMemberCallExpr'):
             return m(n, ctx)
+        if k == 'ExprWithCleanups' and ctx == 'discard':
+            return self.e(n['inner'][0], ctx)      # a full expression with temporaries used as a statement: the value is still discarded
         return m(n)
 
     def e_ImplicitCastExpr(self, n):
@@ -1053,6 +1055,14 @@ class Emitter:
             c = self.callee_decl(x)
             if c.get('kind') == 'DeclRefExpr' and c['referencedDecl'].get('name') == 'operator=' and self.is_chrono(x['inner'][1]['type']):
                 return 'assignment to a std::chrono object dropped (clock readings are bound to verif_elapsed_ms)'
+            if c.get('kind') == 'DeclRefExpr' and c['referencedDecl'].get('name') == 'operator=':
+                # class-type assignment whose target is (an element of) a record field that was dropped from the struct
+                lhs = x['inner'][1]
+                while lhs.get('kind') in ('ParenExpr', 'ImplicitCastExpr', 'ArraySubscriptExpr') or \
+                        (lhs.get('kind') == 'CXXOperatorCallExpr' and self.callee_decl(lhs).get('referencedDecl', {}).get('name') == 'operator[]'):
+                    lhs = lhs['inner'][1] if lhs.get('kind') == 'CXXOperatorCallExpr' else lhs['inner'][0]
+                if lhs.get('kind') == 'MemberExpr' and self.field_dropped(lhs):
+                    return 'write to a dropped record field (%s) dropped' % lhs.get('name')
         if x.get('kind') == 'BinaryOperator' and x.get('opcode') == '=':
             lhs = x['inner'][0]
             while lhs.get('kind') == 'ParenExpr':
